@@ -9,14 +9,23 @@
 (*   dictionary-merge fields carry <<"canon", d>> with d a function from keys to ids.       *)
 (* M follows merge_file_level: Copy, then per update ValidateUpdate (a coercing validator   *)
 (* writes the normalised value onto the instance it is given), Assign (merge + setattr of   *)
-(* the raw value), Normalise (the validator run again on the assigned value), EndParse.     *)
+(* the raw value), Normalise (the validator run again on the assigned value), EndMerge.     *)
+(* The Sphinx parser (WithRender) then renders the document with the resulting object: a    *)
+(* document WITHOUT front matter is rendered with the global object itself (alias); with     *)
+(* front matter, with the copy.  The figure-md directive adds html_image IN PLACE to the     *)
+(* enable_extensions set of the object it is given (FigAdd), parses its body, and rebinds    *)
+(* the attribute to a saved copy (FigRestore).  Object identity therefore matters: `shared`  *)
+(* is the set of container fields whose object in the copy IS the global's object.  As built *)
+(* copy() re-runs the validators, which build fresh containers (shared = {}).                *)
 EXTENDS Naturals, Sequences, FiniteSets, TLC, Json
 
 CONSTANTS KindOf,             \* function: field name -> kind
           Updates,            \* set of <<field, value>> a front matter may contain (incl. unknown fields)
           MaxDocs, MaxUpd,
           DevAssignRaw,       \* as-built before the fix: no Normalise step (the raw value stays)
-          DevValidateOnGlobal \* a seeded change: the validator is given the global object
+          DevValidateOnGlobal,\* a seeded change: the validator is given the global object
+          WithRender,         \* documents carry fm (has front matter) and fig (body uses figure-md); the render phase is modelled
+          DevShallowCopy      \* a seeded change: the copy shares its containers with the global object
 
 Fields == DOMAIN KindOf
 Coercing == {"setc", "dictc", "call"}
@@ -43,50 +52,87 @@ VARIABLES G,        \* the global configuration: field -> value
           cur,      \* the update being processed (after validation) or <<>>
           warns,    \* [myst.topmatter] warnings of the current parse
           pc,
-          hist      \* finished parses: Seq of [upd, eff, warns]
-vars == <<G, new, todo, cur, warns, pc, hist>>
+          hist,     \* finished parses: Seq of [upd, fm, fig, eff, warns]
+          alias,    \* the object being rendered with IS the global object (no front matter)
+          shared,   \* container fields of the copy that are the global's own objects
+          saved     \* figure-md's saved copy of enable_extensions
+vars == <<G, new, todo, cur, warns, pc, hist, alias, shared, saved>>
+FigField == "fs"
+Containers == {f \in Fields : KindOf[f] \in {"setc", "dictc", "dictm", "list"}}
+Plus(v) == <<v[1], v[2] + 100>>          \* the set with html_image added
 
 G0 == [f \in Fields |-> IF KindOf[f] = "dictm" THEN <<"canon", ("k1" :> 1)>> ELSE <<"canon", 1>>]
 Init == /\ G = G0 /\ new = G0 /\ todo = <<>> /\ cur = <<>> /\ warns = 0 /\ pc = "idle" /\ hist = <<>>
+        /\ alias = FALSE /\ shared = {} /\ saved = <<>>
 
-StartParse(U) == /\ pc = "idle" /\ Len(hist) < MaxDocs
-                 /\ todo' = U /\ new' = G /\ warns' = 0 /\ cur' = <<>>        \* new = config.copy()
-                 /\ pc' = "validate"
-                 /\ hist' = Append(hist, [upd |-> U, eff |-> <<>>, warns |-> 0])
-                 /\ UNCHANGED G
+(* fm: the document has front matter (merge_file_level runs); fig: its body uses figure-md *)
+StartDoc(U, fm, fig) ==
+  /\ pc = "idle" /\ Len(hist) < MaxDocs
+  /\ (~fm => U = <<>>)
+  /\ todo' = U /\ new' = G /\ warns' = 0 /\ cur' = <<>> /\ saved' = <<>>
+  /\ alias' = ~fm                                                             \* config = env.myst_config
+  /\ shared' = IF fm /\ DevShallowCopy THEN Containers ELSE {}                \* new = config.copy()
+  /\ pc' = IF fm THEN "validate" ELSE "render"
+  /\ hist' = Append(hist, [upd |-> U, fm |-> fm, fig |-> fig, eff |-> <<>>, warns |-> 0])
+  /\ UNCHANGED G
+StartParse(U) == StartDoc(U, TRUE, FALSE)
 
 ValidateUpdate ==
   /\ pc = "validate" /\ todo # <<>>
   /\ LET f == Head(todo)[1] v == Head(todo)[2] IN
      IF f \notin Fields \/ ~Accept(KindOf[f], v)
      THEN /\ warns' = warns + 1 /\ todo' = Tail(todo)                      \* unknown field / invalid value: one warning, ignored
-          /\ UNCHANGED <<G, new, cur, pc>>
+          /\ UNCHANGED <<G, new, cur, pc, shared>>
      ELSE /\ cur' = Head(todo) /\ todo' = Tail(todo) /\ pc' = "assign"
           /\ IF KindOf[f] \in Coercing
              THEN IF DevValidateOnGlobal
-                  THEN G' = [G EXCEPT ![f] = Canon(KindOf[f], v)] /\ UNCHANGED new
-                  ELSE new' = [new EXCEPT ![f] = Canon(KindOf[f], v)] /\ UNCHANGED G
-             ELSE UNCHANGED <<G, new>>
+                  THEN G' = [G EXCEPT ![f] = Canon(KindOf[f], v)] /\ UNCHANGED <<new, shared>>
+                  ELSE new' = [new EXCEPT ![f] = Canon(KindOf[f], v)] /\ shared' = shared \ {f} /\ UNCHANGED G
+             ELSE UNCHANGED <<G, new, shared>>
           /\ UNCHANGED warns
-  /\ UNCHANGED hist
+  /\ UNCHANGED <<hist, alias, saved>>
 
 Assign == /\ pc = "assign"
           /\ LET f == cur[1] v == cur[2] IN
              new' = [new EXCEPT ![f] = IF KindOf[f] = "dictm" THEN <<"canon", MergeD(G[f][2], v[2])>> ELSE v]
+          /\ shared' = shared \ {cur[1]}                                      \* setattr binds a new object
           /\ pc' = IF DevAssignRaw THEN "validate" ELSE "normalise"
-          /\ UNCHANGED <<G, todo, cur, warns, hist>>
+          /\ UNCHANGED <<G, todo, cur, warns, hist, alias, saved>>
 
 Normalise == /\ pc = "normalise"
              /\ new' = [new EXCEPT ![cur[1]] = Canon(KindOf[cur[1]], new[cur[1]])]
              /\ pc' = "validate"
-             /\ UNCHANGED <<G, todo, cur, warns, hist>>
+             /\ UNCHANGED <<G, todo, cur, warns, hist, alias, shared, saved>>
 
-EndParse == /\ pc = "validate" /\ todo = <<>>
+(* merge_file_level returns; without the render phase that is the end of the parse *)
+EndMerge == /\ pc = "validate" /\ todo = <<>>
             /\ hist' = [hist EXCEPT ![Len(hist)] = [@ EXCEPT !.eff = new, !.warns = warns]]
-            /\ pc' = "idle"
-            /\ UNCHANGED <<G, new, todo, cur, warns>>
+            /\ pc' = IF WithRender THEN "render" ELSE "idle"
+            /\ UNCHANGED <<G, new, todo, cur, warns, alias, shared, saved>>
+EndParse == ~WithRender /\ EndMerge
 
-Next == (\E U \in UpdSeqs : StartParse(U)) \/ ValidateUpdate \/ Assign \/ Normalise \/ EndParse
+(* figure-md: md_config.enable_extensions.add("html_image") -- in place, on whatever object that is *)
+FigAdd == /\ pc = "render" /\ hist[Len(hist)].fig
+          /\ saved' = new[FigField]                                            \* copy(md_config.enable_extensions)
+          /\ new' = [new EXCEPT ![FigField] = Plus(@)]
+          /\ G' = IF alias \/ FigField \in shared THEN [G EXCEPT ![FigField] = Plus(@)] ELSE G
+          /\ pc' = "fig"
+          /\ UNCHANGED <<todo, cur, warns, hist, alias, shared>>
+(* finally: md_config.enable_extensions = saved copy -- rebinds the attribute of the object rendered with *)
+FigRestore == /\ pc = "fig"
+              /\ new' = [new EXCEPT ![FigField] = saved]
+              /\ G' = IF alias THEN [G EXCEPT ![FigField] = saved] ELSE G
+              /\ shared' = shared \ {FigField}
+              /\ pc' = "rendered"
+              /\ UNCHANGED <<todo, cur, warns, hist, alias, saved>>
+EndRender == /\ WithRender /\ (pc = "rendered" \/ (pc = "render" /\ ~hist[Len(hist)].fig))
+             /\ hist' = [hist EXCEPT ![Len(hist)] = [@ EXCEPT !.eff = new, !.warns = warns]]
+             /\ pc' = "idle"
+             /\ UNCHANGED <<G, new, todo, cur, warns, alias, shared, saved>>
+
+Next == \/ (~WithRender /\ \E U \in UpdSeqs : StartParse(U))
+        \/ (WithRender /\ \E U \in UpdSeqs, fm, fig \in BOOLEAN : StartDoc(U, fm, fig))
+        \/ ValidateUpdate \/ Assign \/ Normalise \/ EndMerge \/ FigAdd \/ FigRestore \/ EndRender
 Spec == Init /\ [][Next]_vars
 
 (************************************ S ************************************************)
@@ -100,8 +146,10 @@ DeclEff(cfg, U) ==
                                        ELSE Canon(KindOf[f], v)], Tail(U))
 DeclWarns(U) == Cardinality({n \in 1..Len(U) : U[n][1] \notin Fields \/ ~Accept(KindOf[U[n][1]], U[n][2])})
 
-GlobalImmutable == G = G0
-GlobalNeverWritten == [][G' = G]_vars
+(* the one sanctioned exception (as built): while a figure-md body of a document WITHOUT front  *)
+(* matter is being parsed, the global object itself carries the temporary html_image            *)
+GlobalImmutable == (pc = "fig" /\ alias) \/ G = G0
+GlobalNeverWritten == [][G' = G \/ alias]_vars
 Finished(n) == n < Len(hist) \/ (n = Len(hist) /\ pc = "idle")
 EffectRule == \A n \in 1..Len(hist) : Finished(n) =>
                 /\ hist[n].eff = DeclEff(G0, hist[n].upd)          \* = the configuration built globally from the same values
